@@ -509,6 +509,20 @@ static void scaleGlobalCase(Rng &rng, CaseResult &r) {
   if (r.dumpOnly) return;
   if (c0.nbNets() == 0) { r.sig = "nonets"; return; }
   try { p.check(); } catch (const std::exception &) { r.count("parameter_set_rejected_by_check"); r.sig = "rejected"; return; }
+  {
+    // the weights a net model is built from are those the circuit was last given: every way of giving them must be honoured,
+    // including "none given" (all nets weigh 1) when the same nets are sent again
+    Circuit t = c0;
+    std::vector<float> w2 = t.netWeights_;
+    for (auto &x : w2) x = x * 1.5f + 0.25f;
+    t.setNets(t.netLimits_, t.pinCells_, t.pinXOffsets_, t.pinYOffsets_, w2);
+    if (t.netWeights_ != w2) r.fail("C17:weights-given-to-setNets-not-stored", "setNets with explicit weights on a circuit that already has these nets keeps other weights");
+    t.setNets(std::vector<int>(t.netLimits_), std::vector<int>(t.pinCells_), std::vector<int>(t.pinXOffsets_), std::vector<int>(t.pinYOffsets_));
+    for (float x : t.netWeights_) if (x != 1.0f) { r.fail("C17:weights-given-to-setNets-not-stored", "setNets without weights on a circuit that already has these nets keeps the old weights instead of 1"); break; }
+    std::vector<float> w3(t.netWeights_.size(), 2.5f);
+    t.setNetWeights(w3);
+    if (t.netWeights_ != w3) r.fail("C17:weights-given-to-setNets-not-stored", "setNetWeights did not store the weights");
+  }
   Circuit a = c0, b = c0;
   std::vector<float> w = b.netWeights_;
   for (auto &x : w) x *= k;
